@@ -4,6 +4,7 @@ package main
 // NULL, MNT "/" and GETATTR of the mounted handle.
 
 import (
+	"bytes"
 	"encoding/binary"
 	"fmt"
 	"io"
@@ -27,7 +28,12 @@ func rmCall(conn net.Conn, xid, prog, vers, proc uint32, args []byte) ([]byte, e
 // rmCallFrag sends the call as one record split into fragments at the given offsets (RFC 5531 section 11: a
 // record is one or more fragments, the last one flagged) and reads the reply record.
 func rmCallFrag(conn net.Conn, xid, prog, vers, proc uint32, args []byte, splits []int) ([]byte, error) {
-	msg := cat(encCallHdr(xid, 2, prog, vers, proc, 1, encAuthSys(0, []byte("c"), 0, 0, nil), 0, nil), args)
+	return rmCallCred(conn, xid, prog, vers, proc, args, splits, encAuthSys(0, []byte("c"), 0, 0, nil))
+}
+
+// rmCallCred: the same with a given AUTH_SYS credential body
+func rmCallCred(conn net.Conn, xid, prog, vers, proc uint32, args []byte, splits []int, cred []byte) ([]byte, error) {
+	msg := cat(encCallHdr(xid, 2, prog, vers, proc, 1, cred, 0, nil), args)
 	conn.SetDeadline(time.Now().Add(2 * time.Second))
 	if _, err := conn.Write(frame(msg, splits)); err != nil {
 		return nil, err
@@ -50,7 +56,7 @@ func rmCallFrag(conn net.Conn, xid, prog, vers, proc uint32, args []byte, splits
 	return buf, nil
 }
 
-// conformantClient: NULL, MNT "/", GETATTR as single-fragment records, then MNT and GETATTR again as multi-fragment records; returns "rm" when all three are answered as record-marked replies.
+// conformantClient: NULL, MNT "/", GETATTR as single-fragment records, then MNT and GETATTR again as multi-fragment records, then NULL and GETATTR with a full-size AUTH_SYS credential (16 groups); returns "rm" when all three are answered as record-marked replies.
 func conformantClient(port int) string {
 	conn, err := net.DialTimeout("tcp", fmt.Sprintf("127.0.0.1:%d", port), 2*time.Second)
 	if err != nil {
@@ -89,6 +95,19 @@ func conformantClient(port int) string {
 	}
 	if len(rep) != 24+4+84 || binary.BigEndian.Uint32(rep[24:]) != 0 || binary.BigEndian.Uint32(rep[28:]) != 2 {
 		return fmt.Sprintf("getattr-bad(3 fragments, len=%d)", len(rep))
+	}
+	// ... and with the largest credential RFC 5531 allows: 16 supplementary groups (what a Linux client sends for
+	// a user in 16 or more groups) and a 255-byte machine name
+	full := encAuthSys(77, bytes.Repeat([]byte("m"), 255), 1000, 1000, []uint32{1, 2, 3, 4, 5, 6, 7, 8, 9, 10, 11, 12, 13, 14, 15, 16})
+	if _, err := rmCallCred(conn, 16, progNFS, 3, 0, nil, nil, full); err != nil {
+		return "raw(NULL with 16 groups: " + err.Error() + ")"
+	}
+	rep, err = rmCallCred(conn, 17, progNFS, 3, 1, fh(h), nil, full)
+	if err != nil {
+		return "raw(GETATTR with 16 groups: " + err.Error() + ")"
+	}
+	if len(rep) != 24+4+84 || binary.BigEndian.Uint32(rep[8:]) != 0 || binary.BigEndian.Uint32(rep[24:]) != 0 {
+		return fmt.Sprintf("getattr-denied-or-bad(16 groups, reply_stat=%d len=%d)", binary.BigEndian.Uint32(rep[8:]), len(rep))
 	}
 	return "rm"
 }
